@@ -2,6 +2,7 @@ package gen
 
 import (
 	"fmt"
+	"net/url"
 	"reflect"
 	"sort"
 	"strings"
@@ -30,6 +31,10 @@ type TypeSpec struct {
 	// Soft types only: the Type value is derived from another one that was
 	// already in use (base.New(), base.Copy(), rename, add a field).
 	Derived bool
+	// Struct-backed types only: where the ID field is declared among the
+	// other fields (0 = first, as in the library's own examples; larger
+	// values wrap around).
+	IDPos int
 }
 
 // SchemaSpec is a generated schema together with its description.
@@ -182,11 +187,12 @@ func GoTypeOf(kind int, nullable bool) reflect.Type {
 // StructTypeOf builds, with reflect.StructOf, the struct type that declares the
 // given type in the library's tag language.
 func StructTypeOf(ts *TypeSpec) reflect.Type {
-	fields := []reflect.StructField{{
+	idField := reflect.StructField{
 		Name: "ID",
 		Type: reflect.TypeOf(""),
 		Tag:  reflect.StructTag(fmt.Sprintf(`json:"id" api:"%s"`, ts.Name)),
-	}}
+	}
+	fields := []reflect.StructField{}
 
 	for i, a := range ts.Attrs {
 		fields = append(fields, reflect.StructField{
@@ -213,6 +219,14 @@ func StructTypeOf(ts *TypeSpec) reflect.Type {
 			Tag:  reflect.StructTag(fmt.Sprintf(`json:"%s" api:"%s"`, r.FromName, tag)),
 		})
 	}
+
+	// The ID field may be declared anywhere.
+	pos := 0
+	if ts.IDPos > 0 {
+		pos = ts.IDPos % (len(fields) + 1)
+	}
+
+	fields = append(fields[:pos:pos], append([]reflect.StructField{idField}, fields[pos:]...)...)
 
 	return reflect.StructOf(fields)
 }
@@ -280,24 +294,27 @@ const scaffoldType = "zz--scaffold"
 // when at == len(specs)) and removed again once all types are in: the result
 // is the same schema, reached through a longer history of edits.
 func BuildSchemaWithScaffold(specs []TypeSpec, at int) *SchemaSpec {
-	return BuildSchemaWithHistory(specs, at, -1)
+	return BuildSchemaWithHistory(specs, at, -1, false)
 }
 
 // BuildSchemaWithHistory is BuildSchemaWithScaffold followed, when
 // readdFrom >= 0, by a few lookups and by taking out and putting back every
 // type from that index on, in order: the schema ends up with the same types
 // in the same order.
-func BuildSchemaWithHistory(specs []TypeSpec, at, readdFrom int) *SchemaSpec {
+func BuildSchemaWithHistory(specs []TypeSpec, at, readdFrom int, useBefore bool) *SchemaSpec {
 	ss := buildSchemaWithScaffold(specs, at)
 
 	if readdFrom < 0 || readdFrom >= len(specs) {
 		return ss
 	}
 
-	// A few lookups first (whatever they build is now there), none in
-	// between the edits.
-	ss.Schema.HasType("zz--nothing")
-	ss.Schema.GetType(specs[len(specs)-1].Name)
+	// The schema is used after the first type was moved - when the order of
+	// the types is not the final one - and, if useBefore, also before
+	// anything moves (whatever a use builds is then there); nothing happens
+	// in between the other edits.
+	if useBefore {
+		useSchema(ss.Schema)
+	}
 
 	for k := readdFrom; k < len(specs); k++ {
 		// The next type to move is at index readdFrom: those moved before it
@@ -309,6 +326,10 @@ func BuildSchemaWithHistory(specs []TypeSpec, at, readdFrom int) *SchemaSpec {
 		if err := ss.Schema.AddType(typ); err != nil {
 			panic(fmt.Sprintf("gen: AddType (again): %v", err))
 		}
+
+		if k == readdFrom {
+			useSchema(ss.Schema)
+		}
 	}
 
 	for i := range specs {
@@ -318,6 +339,27 @@ func BuildSchemaWithHistory(specs []TypeSpec, at, readdFrom int) *SchemaSpec {
 	}
 
 	return ss
+}
+
+// useSchema runs the read-only operations a request handler runs against a
+// schema: lookups, integrity check, relationship listing, parsing a URL,
+// unmarshaling a (minimal) resource fully and partially. Results are dropped.
+func useSchema(schema *jsonapi.Schema) {
+	schema.HasType("zz--nothing")
+	schema.Check()
+	schema.Rels()
+
+	for i := range schema.Types {
+		name := schema.Types[i].Name
+		schema.HasType(name)
+		schema.GetType(name)
+
+		payload := []byte(`{"id":"warm","type":` + QuoteJSON(name) + `}`)
+
+		_, _ = jsonapi.UnmarshalResource(payload, schema)
+		_, _ = jsonapi.UnmarshalPartialResource(payload, schema)
+		_, _ = jsonapi.NewURLFromRaw(schema, "/"+url.PathEscape(name))
+	}
 }
 
 func buildSchemaWithScaffold(specs []TypeSpec, at int) *SchemaSpec {
@@ -446,6 +488,10 @@ func CoherentSchema(t *rapid.T, o SchemaOpts) *SchemaSpec {
 
 		specs[i].NilMaps = rapid.Bool().Draw(t, "nilmaps")
 		specs[i].Derived = rapid.IntRange(0, 3).Draw(t, "derived") == 0
+
+		if rapid.IntRange(0, 2).Draw(t, "idpos-any") == 0 {
+			specs[i].IDPos = rapid.IntRange(1, 9).Draw(t, "idpos")
+		}
 
 		if o.AllKindsChance > 0 && rapid.IntRange(1, o.AllKindsChance).Draw(t, "allkinds") == 1 {
 			specs[i].Attrs = AllKindAttrs()
@@ -594,7 +640,7 @@ func CoherentSchema(t *rapid.T, o SchemaOpts) *SchemaSpec {
 		readdFrom = rapid.IntRange(0, len(specs)-1).Draw(t, "readd-from")
 	}
 
-	return BuildSchemaWithHistory(specs, at, readdFrom)
+	return BuildSchemaWithHistory(specs, at, readdFrom, rapid.Bool().Draw(t, "readd-usebefore"))
 }
 
 // NewResource creates an empty resource of the type: a *Wrapper around a fresh
@@ -807,5 +853,5 @@ func IncoherentSchema(t *rapid.T) *SchemaSpec {
 		readdFrom = rapid.IntRange(0, len(specs)-1).Draw(t, "readd-from")
 	}
 
-	return BuildSchemaWithHistory(specs, at, readdFrom)
+	return BuildSchemaWithHistory(specs, at, readdFrom, rapid.Bool().Draw(t, "readd-usebefore"))
 }
